@@ -6,18 +6,20 @@ rnd, pid = sys.argv[1], sys.argv[2]
 src = f"/tmp/{rnd}/out/{pid}"
 m = json.load(open(f"{src}/meta.json"))
 conf = json.load(open(f"{src}/confirm.json"))
-name = f"{pid}-r{1 if rnd=='seed' else 2}"
+RN = {'seed': 1, 'seed2': 2, 'seed3': 3}[rnd]
+name = f"{pid}-r{RN}"
 dst = f"/verif/seeded/{name}"
 os.makedirs(dst, exist_ok=True)
 shutil.copy(f"{src}/patch.diff", f"{dst}/patch.diff")
 shutil.copy(f"{src}/demo_test.go", f"{dst}/demo_test.go.txt")
 det = {}
-sumf = f"/tmp/{'seedrun' if rnd=='seed' else 'seedrun2'}/summary.txt"
+sumf = f"/tmp/{'seedrun' if rnd=='seed' else 'seedrun'+str(RN)}/summary.txt"
 if os.path.exists(sumf):
     for l in open(sumf):
         mm = re.match(r"seed=(\S+) check=(\S+) exit=(\d+) violations=(\d+)", l)
         if mm and mm.group(1) == pid:
-            det[mm.group(2)] = {"exit": int(mm.group(3)), "violation_keys": int(mm.group(4))}
+            # several runs of the same check (before / after strengthening it) are kept in order
+            det.setdefault(mm.group(2), []).append({"exit": int(mm.group(3)), "violation_keys": int(mm.group(4))})
 meta = {
     "property": pid,
     "summary": m.get("summary"),
